@@ -218,14 +218,35 @@ def r11b(ctx: Context) -> None:
         rule.fail(func_key(recogniser) + ": callers", where(recogniser), f"the recogniser is called from {len(callers)} places")
         return
     wrapper = callers[0].caller
+    line_handler = prog.method(CBP, "parse_line_for_container_blocks")
     wrapper_sites = prog.callers.get(wrapper.qualname, [])
     if len(wrapper_sites) != 1:
         raise AnalysisError("pragma wrapper has several callers")
+    if wrapper_sites[0].caller == line_handler:
+        # the recogniser is called by the setup function itself (no separate wrapper): the chain is one shorter
+        class _Direct:  # the 'wrapper call' in the setup function is the recogniser call itself
+            caller, node = wrapper, callers[0].node
+        wrapper_sites = [_Direct]  # type: ignore[list-item]
     setup = wrapper_sites[0].caller
-    # (a) in the setup function the wrapper call is the first non-logging call
+    # (a) in the setup function the wrapper call is the first call that can touch parser state: calls before it
+    # (logging, whitespace extraction for the recogniser's own argument, ...) must be inert for the parser
+    def _inert(call: ast.Call) -> bool:
+        if _is_logging(prog, setup, call):
+            return True
+        handed = {a.arg for a in setup.node.args.args if "ParserState" in norm(a.annotation or ast.Constant("")) or "GrabBag" in norm(a.annotation or ast.Constant(""))}
+        if any(isinstance(sub, ast.Name) and sub.id in handed for arg in list(call.args) + [k.value for k in call.keywords] for sub in [arg]):
+            return False  # the parser state (or the per-line work area) is handed over as a whole
+        site = site_for(prog, setup, call)
+        if site is None or not site.targets:
+            return bool(site is not None and site.external)
+        return not any(_mutates_parser_state(prog, prog.functions[q]) for q in prog.reachable(list(site.targets)))
+
     first_call = None
     for stmt in setup.node.body:
-        calls = [c for c in ast.walk(stmt) if isinstance(c, ast.Call) and not _is_logging(prog, setup, c)]
+        calls = [c for c in ast.walk(stmt) if isinstance(c, ast.Call) and not _inert(c)]
+        if any(c is wrapper_sites[0].node for c in ast.walk(stmt)):
+            first_call = (stmt, [wrapper_sites[0].node] if wrapper_sites[0].node not in calls else calls)
+            break
         if calls:
             first_call = (stmt, calls)
             break
@@ -245,7 +266,7 @@ def r11b(ctx: Context) -> None:
     handler = handler_sites[0].caller
     # (a') every source line is shown to the recogniser: along handler -> setup -> wrapper -> recogniser
     # nothing but the extension's flag decides whether the next call is made
-    chain = [(handler, handler_sites[0].node), (setup, wrapper_sites[0].node), (wrapper, callers[0].node)]
+    chain = [(handler, handler_sites[0].node), (setup, wrapper_sites[0].node)] + ([(wrapper, callers[0].node)] if wrapper != setup else [])
     conditions = []
     for func, call in chain:
         for test, polarity in guards_of(func.node, call, include_asserts=False):
@@ -267,7 +288,7 @@ def r11b(ctx: Context) -> None:
                 before.extend(site.targets)
     closure = prog.reachable([setup] + before, stop=None)
     # restrict to what the pragma-found path can reach: wrapper closure + constructors before it
-    found_path = prog.reachable([wrapper] + before)
+    found_path = prog.reachable(([wrapper] if wrapper != setup else [recogniser]) + before)
     offenders = []
     for qual in found_path:
         mutated = _mutates_parser_state(prog, prog.functions[qual])
